@@ -200,4 +200,49 @@ theorem step_local_of (P : Program) (F : Flags) (c1 c2 : Config) (a : Nat) (ev :
   obtain ⟨x, y, eff, h1, h2, rfl⟩ := step_local P F c1 c2 ⟨a, ev⟩ hne hs
   exact ⟨x, y, eff, h1, h2, by simp⟩
 
+/-! ### small facts used by `Props/C03.lean` -/
+
+theorem mem_of_lookup {α} (l : List (Nat × α)) (s : Nat) (v : α) (h : l.lookup s = some v) : (s, v) ∈ l := by
+  induction l with
+  | nil => cases h
+  | cons p l ih =>
+    obtain ⟨k, w⟩ := p
+    simp only [List.lookup] at h
+    split at h
+    · rename_i he
+      have : s = k := by simpa using he
+      cases h; subst this; exact List.mem_cons_self
+    · exact List.mem_cons_of_mem _ (ih h)
+
+theorem isOk_eq_ok (r : Res) (h : r.isOk = true) : r = .ok := by cases r <;> first | rfl | cases h
+
+theorem parResults_one (c : Config) (rs : List Res) (h : parResults c 1 0 = some rs) :
+    ∃ id r, c.tops.lookup 0 = some id ∧ kidDone c id = some r ∧ rs = [r] := by
+  simp only [parResults] at h
+  split at h
+  · cases h
+  · rename_i id hid
+    split at h
+    · rename_i r rs' hr hrs
+      cases hrs; cases h
+      exact ⟨id, r, hid, hr, rfl⟩
+    · cases h
+
+theorem seqResult_one (c : Config) (r' : Res) (h : seqResult c 1 0 = some r') :
+    ∃ id, c.tops.lookup 0 = some id ∧ kidDone c id = some r' := by
+  simp only [seqResult] at h
+  split at h
+  · cases h
+  · rename_i id hid
+    split at h
+    · cases h
+    · rename_i r hr
+      split at h
+      · rename_i hok
+        cases h
+        exact ⟨id, hid, by rw [hr, isOk_eq_ok _ hok]⟩
+      · split at h
+        · cases h; exact ⟨id, hid, hr⟩
+        · cases h
+
 end TaskModel.Sched
